@@ -203,8 +203,23 @@ def x_roundtrip(ctx, case):
         elif isinstance(given, dict):
             given["changed-later"] = 1
         raw = b"".join(c.iter_bytes())
-        ctx.check(json.loads(raw.decode("utf8")) == data, "roundtrip.json",
-                  lambda: {"raw": raw})
+        def same(a, b):
+            # (1, 1.0 and True are equal and hash alike - and are three different JSON documents; so are 0.0 and -0.0)
+            if type(a) is not type(b):
+                return False
+            if isinstance(a, float):
+                return repr(a) == repr(b)
+            if isinstance(a, list):
+                return len(a) == len(b) and all(same(x, y) for x, y in zip(a, b))
+            if isinstance(a, dict):
+                return a.keys() == b.keys() and all(same(a[k], b[k]) for k in a)
+            return a == b
+        try:
+            back = json.loads(raw.decode("utf8"))
+            ok = same(back, data)
+        except Exception as e:  # noqa
+            ok = False
+        ctx.check(ok, "roundtrip.json", lambda: {"raw": raw, "given": repr(data)})
         ctx.check(c.content_type.type == "application" and c.content_type.subtype == "json",
                   "roundtrip.json-type")
     return True
@@ -409,6 +424,13 @@ def x_ctype(ctx, case):
     rev = ContentType(case["type"], case["sub"], dict(reversed(list(case["params"].items()))))
     ctx.check(repr(rev) == rendered, "ctype.render-order-independent",
               lambda: {"a": rendered, "b": repr(rev)})
+    # ... and of WHEN the parameters were filled in: the public `parameters` dict completed after construction (a
+    # charset that becomes known later) renders like one given to the constructor
+    late = ContentType(case["type"], case["sub"])
+    first = repr(late)
+    late.parameters.update(case["params"])
+    ctx.check(repr(late) == rendered and first == repr(ContentType(case["type"], case["sub"])), "ctype.roundtrip",
+              lambda: {"parameters filled in after construction": case["params"], "rendered": repr(late), "want": rendered})
     # the public `parameters` of one ContentType are its own: filling them in does not leak into types
     # created without parameters (or into the caller's dict being shared between two types)
     one = ContentType(case["type"], case["sub"])
@@ -489,7 +511,71 @@ def x_snapshot(ctx, case):
     return True
 
 
+def x_snapshot_fixture(ctx, case):
+    """The same through TestCase.useFixture, on each of its paths (the fixture sets up; its _setUp() fails; a fixture
+    written against the older API fails in its own setUp()): what the outcome carries of the fixture's details is
+    what they held when they were gathered, whatever the test does to the sources afterwards."""
+    import re
+    import fixtures
+    import testtools
+    from testtools.content import Content
+    from testtools.content_type import ContentType
+    from .. import recorders
+    cells = {name: [bytes.fromhex(h) for h in hexes] for name, hexes in case["source"].items()}
+    want_bytes = {n: b"".join(cells[n]) for n in cells}
+
+    def fill(fx):
+        for name in cells:
+            fx.addDetail(name, Content(ContentType("application", "octet-stream", {"n": name}), lambda n=name: cells[n]))
+
+    def mutate():
+        for name in cells:
+            cells[name][:] = [b"MUTATED"]
+    how = case["how"]
+
+    class New(fixtures.Fixture):
+        def _setUp(self):
+            fill(self)
+            if how == "setup_fails":
+                raise ValueError("_setUp broke")
+
+    class Old(fixtures.Fixture):
+        def setUp(self):
+            super().setUp()
+            fill(self)
+            raise ValueError("setUp broke")
+    pre = {name: ("pre-" + name).encode() for name in case["target"]}
+
+    class T(testtools.TestCase):
+        def test(self):
+            for name, payload in pre.items():
+                self.addDetail(name, Content(ContentType("text", "plain"), lambda p=payload: [p]))
+            self.addCleanup(mutate)          # (registered first: runs after the fixture's details were gathered)
+            try:
+                self.useFixture(Old() if how == "old_setup_fails" else New())
+            except ValueError:
+                mutate()
+                raise
+    log = recorders.Log()
+    T("test").run(recorders.ExtRecorder(log))
+    outs = [e for e in log.events if e.name in recorders.OUTCOMES]
+    if len(outs) != 1:
+        ctx.check(False, "snapshot.each-source-once", {"outcomes": [e.name for e in outs], "case": case})
+        return True
+    got = outs[0].payload["details"] or {}
+    ctx.check(all(got.get(n, (None, None))[1] == p for n, p in pre.items()), "snapshot.no-overwrite",
+              lambda: {"got": {k: v[1] for k, v in got.items()}, "pre": pre, "case": case})
+    for src, data in want_bytes.items():
+        names = [n for n, (ctype, b) in got.items() if re.search(r'n="%s"' % re.escape(src), ctype)]
+        ctx.check(len(names) == 1, "snapshot.each-source-once", lambda: {"src": src, "names": names, "case": case})
+        if names:
+            ctx.check(got[names[0]][1] == data, "snapshot.unaffected",
+                      lambda: {"src": src, "got": got[names[0]][1], "want": data, "case": case})
+    return True
+
+
 SUBCHECKS = {
+    "snapshot_fixture": x_snapshot_fixture,
     "decode": x_decode,
     "roundtrip": x_roundtrip,
     "stream": x_stream,
@@ -623,7 +709,7 @@ def run(ctx):
     def rand_json(depth=0):
         r = rng.random()
         if depth > 2 or r < 0.4:
-            return rng.choice([None, True, False, 0, -1, 2 ** 40, 1.5, "", _rand_text(rng, 6)])
+            return rng.choice([None, True, False, 0, -1, 2 ** 40, 1.5, "", _rand_text(rng, 6), 1, 1.0, 0.0, -0.0, True, 1, 1.0])
         if r < 0.7:
             return [rand_json(depth + 1) for _ in range(rng.randint(0, 3))]
         return {_rand_text(rng, 4): rand_json(depth + 1) for _ in range(rng.randint(0, 3))}
@@ -706,3 +792,5 @@ def run(ctx):
                for n in rng.sample(names, rng.randint(1, 4))}
         tgt = rng.sample(names, rng.randint(0, 4))
         ctx.execute("snapshot", {"source": src, "target": tgt, "live": rng.random() < 0.7})
+        if i % 5 == 0:
+            ctx.execute("snapshot_fixture", {"source": src, "target": tgt, "how": ["ok", "setup_fails", "old_setup_fails"][(i // 5) % 3]})
